@@ -510,6 +510,16 @@ def _check_case(ctx, case, rng, casedir):
         if nm not in ofs:
             ofs[nm] = stat_entry(ctx.root, nm)
     is_clause = cls not in ("eofCont",)
+    if cls == "eofCont":
+        # "EOF encountered while expecting line continuation" is true only of a file that ends in backslash-newline
+        try:
+            data = open(os.path.join(ctx.root, d["file"].decode("latin-1")) if not os.path.isabs(d["file"].decode("latin-1")) else d["file"].decode("latin-1"), "rb").read()
+        except OSError:
+            data = None
+        rep.count("diagnostic: EOF in a continuation, file %s" % ("ends in backslash-newline" if data is not None and data.endswith(b"\\\n") else "has its continuation line"))
+        if data is not None and not data.endswith(b"\\\n"):
+            ofail("\"EOF encountered while expecting line continuation\" for a file whose continuation line is there (it only lacks a final newline)",
+                  {"kind": "eof-continuation-untruthful"})
     chain_tok = ";".join("%s:%d" % (hx(f), l) for f, l in d["chain"]) or "-"
     o = ctx.model.ask("C09 oracle-diag %s %s %d %s %d" % (fs_token(ofs), hx(d["file"]), d["line"], chain_tok, 1 if is_clause else 0))
     if o != "ok":
@@ -642,6 +652,8 @@ CORPUS = [
     {"files": {"main.cfg": b"include inc.cfg\n", "inc.cfg": b"notvalid\n"}, "tag": "corpus-chain"},
     {"files": {"main.cfg": b"include main.cfg"}, "tag": "corpus-self"},
     {"files": {"main.cfg": b"title a \\\n b \\"}, "tag": "corpus-eof-continuation"},
+    {"files": {"main.cfg": b"title x \\\n y"}, "tag": "corpus-continuation-without-final-newline"},
+    {"files": {"main.cfg": b"role r\n  :a echo 1 \\\n   && echo 2\nend\ncast\n  a plays r\nend\nscript\n  scene x entails for a: a\n  storyline x \\\n x"}, "tag": "corpus-continuation-without-final-newline"},
     {"files": {"main.cfg": b""}, "tag": "corpus-empty"},
     {"files": {"x.cfg": b""}, "main": "sub", "dirs": ["sub"], "tag": "corpus-main-is-dir"},
     {"files": {"x.cfg": b""}, "main": "nothere.cfg", "tag": "corpus-main-missing"},
